@@ -86,9 +86,15 @@ func elemHeapNames(et types.Type) (names, sorts []string) {
 	for _, c := range flatten(et) {
 		names = append(names, "E_"+typeKey(et)+c.Suffix)
 		sorts = append(sorts, c.Sort)
+		if c.Ref {
+			pendingRefs[names[len(names)-1]] = true
+		}
 	}
 	return
 }
+
+// pendingRefs: reference-typed element heaps seen through elemHeapNames (merged into the VC's table on use)
+var pendingRefs = map[string]bool{}
 
 // allocRegion creates a fresh zeroed region for elements of type et.
 func (vc *VC) allocRegion(st *State, et types.Type) string {
@@ -357,17 +363,17 @@ func (vc *VC) instr(st *State, in ssa.Instruction) {
 		if av.K == KInt {
 			vc.nilCheck(st, av, "store through nil pointer")
 		}
-		a := vc.addrOf(st, av, x.Addr.Type())
-		if _, isArr := isArrayT(a.T); isArr && a.Kind != ALocal {
-			panic(unsupported("store of array value into the heap"))
-		}
-		if arr, isArr := isArrayT(derefType(x.Addr.Type())); isArr {
+		if arr, isArr := isArrayT(derefType(x.Addr.Type())); isArr && av.K == KInt {
 			// array assignment: copy contents into the destination region
 			saved := vc.modset
 			vc.modset = nil
 			vc.copyRange(st, arr.Elem(), av.S, "0", v.S, "0", numI(arr.Len()))
 			vc.modset = saved
 			return
+		}
+		a := vc.addrOf(st, av, x.Addr.Type())
+		if _, isArr := isArrayT(a.T); isArr {
+			panic(unsupported("store of array value into the heap"))
 		}
 		vc.store(st, a, v)
 	case *ssa.UnOp:
